@@ -32,5 +32,6 @@ run revert_fix_F5 mutants/revert_fix_F5.diff C12
 run revert_fix_F6 mutants/revert_fix_F6.diff C08
 run revert_fix_F7 mutants/revert_fix_F7.diff C12
 run revert_fix_F9 mutants/revert_fix_F9.diff C17
+run revert_fix_F10 mutants/revert_fix_F10.diff C12
 for d in seeded/C* seeded/r[0-9]-C*; do [ -f $d/patch.diff ] || continue; n=$(basename $d); id=${n##*-}; run seed-$n $d/patch.diff $id; done
 echo "corpus: $total changes, $miss missed (seed $SEED)"
